@@ -142,6 +142,45 @@ def run(ctx):
                    f"the critical section decides on `{stale[0][0]}`, bound at line {stale[0][1]} from `{stale[0][2]}` BEFORE the lock was taken: "
                    "another thread can change that state in between (check-then-act on a stale snapshot)", f"{fi.module.rel}:{w.lineno}")
     ctx.extra["critical_sections_examined"] = n_sec
+    # ---- publication order between the location table (placeholder entry) and the pending-lookup bookkeeping.
+    # gn_ls_request makes the placeholder LocTE and the buffer entry in ONE _ls_lock section.  A reader that consults both
+    # without holding the lock across them must read the table FIRST and the bookkeeping (under the lock) SECOND: whoever then
+    # sees the placeholder also sees the pending lookup.  The other order leaves a window in which the placeholder (empty
+    # position vector) is taken for a resolved destination and the unicast leaves before any LS Reply.
+    lsr = P.func(f"{R}.gn_ls_request")
+    lfl = la.flow(lsr)
+    pubs = [c for c in P.calls_in(lsr) if isinstance(c.func, ast.Attribute) and c.func.attr == "ensure_entry"]
+    bufs = [n_ for n_ in ast.walk(lsr.node) if isinstance(n_, ast.Assign) and isinstance(n_.targets[0], ast.Subscript) and
+            dotted(n_.targets[0].value) == "self._ls_packet_buffers"]
+    if not pubs or not bufs:
+        raise AnalysisError("C15: gn_ls_request no longer creates the placeholder entry / the buffer entry")
+
+    def section_of(fi_, node):
+        return next((w for w in ast.walk(fi_.node) if isinstance(w, ast.With) and any(x is node for x in ast.walk(w)) and
+                     any((dotted(it.context_expr) or "").endswith("_ls_lock") for it in w.items)), None)
+    same = section_of(lsr, pubs[0]) is not None and section_of(lsr, pubs[0]) is section_of(lsr, bufs[0])
+    ctx.ob("C15.atomic", lsr.short(), "placeholder-and-buffer-in-one-section", same,
+           "the placeholder LocTE and the buffer entry become visible in one _ls_lock section", f"{lsr.module.rel}:{pubs[0].lineno}")
+    guc = P.func(f"{R}.gn_data_request_guc")
+    gfl = la.flow(guc)
+    tbl = [c for c in P.calls_in(guc) if isinstance(c.func, ast.Attribute) and c.func.attr == "get_entry" and
+           dotted(c.func.value) == "self.location_table"]
+    pend = [n_ for n_ in ast.walk(guc.node) if isinstance(n_, ast.Compare) and any(isinstance(o, (ast.In, ast.NotIn)) for o in n_.ops) and
+            any(dotted(x) == "self._ls_packet_buffers" for x in n_.comparators)]
+    if not tbl or not pend:
+        raise AnalysisError("C15: gn_data_request_guc no longer consults the location table and the pending-lookup buffers")
+    top = guc.node.body
+
+    def top_index(node):
+        return next(i for i, st_ in enumerate(top) if any(x is node for x in ast.walk(st_)))
+    held_across = section_of(guc, tbl[0]) is not None and section_of(guc, tbl[0]) is section_of(guc, pend[0])
+    ordered = all(top_index(t) < top_index(p_) or (top_index(t) == top_index(p_) and (t.lineno, t.col_offset) < (p_.lineno, p_.col_offset))
+                  for t in tbl for p_ in pend)
+    ctx.ob("C15.atomic", guc.short(), "table-read-before-pending-check", held_across or ordered,
+           "the destination's LocTE is read before the pending-lookup bookkeeping (or both under one _ls_lock section)" if held_across or ordered else
+           "the pending-lookup bookkeeping is read BEFORE the location table and the lock is released in between: a lookup started by "
+           "another thread in the window leaves its placeholder LocTE visible with `pending` already read as False - the GeoUnicast is "
+           "sent at once with an empty destination position vector instead of being buffered", f"{guc.module.rel}:{tbl[0].lineno}")
     ctx.floor("C15.atomic", 12)
     # ---- lock order
     LR.check_order(ctx, la, {"Router", "LocationTable", "LocationTableEntry"}, "C15.order", wiring)
